@@ -198,6 +198,13 @@ class Source:
             e = self.masked.find(";", e)
         return (s, e + 1)
 
+    def find_alias(self, rng, name):
+        ms = self._depth0_positions(rng, r"(?:pub\s+)?type\s+%s\b[^=;]*=" % re.escape(name))
+        if len(ms) != 1:
+            raise AnchorLost("%s: type alias %s found %d times" % (self.label, name, len(ms)))
+        s = ms[0].start()
+        return (s, self.masked.find(";", s) + 1)
+
     def find_const(self, rng, name):
         ms = self._depth0_positions(rng, r"(?:pub\s+)?const\s+%s\s*:" % re.escape(name))
         if len(ms) != 1:
